@@ -2,9 +2,9 @@
 """run every contract under several PYTHONHASHSEED values; report obligations that are not discharged (flaky proofs)"""
 import subprocess, sys, os, re, json
 from concurrent.futures import ThreadPoolExecutor
-sys.path.insert(0, '/verif')
-os.chdir('/verif')
-out = subprocess.run(['python3-vt', '-c', 'import sys; sys.path.insert(0,"/verif"); from pyvc.main import load_contracts; R=load_contracts(); print("\\n".join(q for q,c in R.items() if not getattr(c,"assumed",False) and not getattr(c,"no_body",False) and getattr(c,"body_proved",True)))'], capture_output=True, text=True).stdout.split()
+sys.path.insert(0, os.path.dirname(os.path.dirname(os.path.abspath(__file__))))
+os.chdir(os.path.dirname(os.path.dirname(os.path.abspath(__file__))))
+out = subprocess.run(['python3-vt', '-c', 'import sys; sys.path.insert(0,"."); from pyvc.main import load_contracts; R=load_contracts(); print("\\n".join(q for q,c in R.items() if not getattr(c,"assumed",False) and not getattr(c,"no_body",False) and getattr(c,"body_proved",True)))'], capture_output=True, text=True).stdout.split()
 seeds = sys.argv[1:] or ['1', '2', '3', '4', '5']
 def run(args):
     q, seed = args
